@@ -17,7 +17,7 @@ STATE-MACHINE mode).
                    `(0..n).map(|_| central_header_to_zip_file(..).and_then(|mut file| { name check (A6);
                    file.extra_field = strip_zip64_extra_field(..); Ok(file) })).collect::<Result<Vec<_>, _>>()?`
                    against the model's `newAppend.loop` (the first failing record ends the iteration), the
-                   IGNORED repositioning seek `let _ = …`, and the writer that is built (`Storer(Unencrypted)`,
+                   repositioning seek (reported since fix 1f81f8a: `…seek(..)?`; the translator accepts the older `let _ = …` form too), and the writer that is built (`Storer(Unencrypted)`,
                    the records, `Default` statistics, the three flags off, the footer's comment,
                    `writing_raw = true`).
 
